@@ -5,7 +5,7 @@ use crate::props::c03::{run_connection, Case};
 use engine::{Outcome, Report, Src};
 
 pub const LEVEL: &str = "exploration";
-pub const RULE: &str = "case = (connector configuration with names / credentials drawn from empty, ASCII, Latin-1, CJK, combining, emoji and mixed strings whose UTF-8 and UTF-16 lengths straddle 15/16/32; screen sizes; layouts; server-assigned identifiers). Every byte the client writes during connect, activation and shutdown is parsed by the strict reference parsers (TPKT length, X.224 LI, BER/PER lengths, GCC block lengths, CS_CORE size and 32-byte NUL-terminated client name, cb* counts and terminators, totalLength / uncompressedLength, lengthSourceDescriptor, lengthCombinedCapabilities = 4 + sum, numberCapabilities, lengthCapability and specified capability sizes, numEvents) and decoded values are compared with the configuration. Section connection-request: x224::Client::connect for offered masks {0,1,2,3,8,0xB,0x10,0xFFFFFFFF} x restricted admin x blank credentials, the written request parsed strictly (TPKT length, LI, RDP_NEG_REQ flags / length / mask). Section ntlm-tokens: NEGOTIATE / AUTHENTICATE tokens against CHALLENGE messages whose MaxLen fields exceed Len. Non-trivial = a non-ASCII or over-long (> 15 UTF-16 units) string, or an identifier >= 0x80; distinct by hash of the case.";
+pub const RULE: &str = "case = (connector configuration with names / credentials drawn from empty, ASCII, Latin-1, CJK, combining, emoji and mixed strings whose UTF-8 and UTF-16 lengths straddle 15/16/32; screen sizes; layouts; server-assigned identifiers). Every byte the client writes during connect, activation and shutdown is parsed by the strict reference parsers (TPKT length, X.224 LI, BER/PER lengths, GCC block lengths, CS_CORE size and 32-byte NUL-terminated client name, cb* counts and terminators, totalLength / uncompressedLength, lengthSourceDescriptor, lengthCombinedCapabilities = 4 + sum, numberCapabilities, lengthCapability and specified capability sizes, numEvents) and decoded values are compared with the configuration. Section string-lengths: every length 0..=256 of domain / user / password (ASCII and surrogate pairs) and 0..=40 of the client name. Section connection-request: x224::Client::connect for offered masks {0,1,2,3,8,0xB,0x10,0xFFFFFFFF} x restricted admin x blank credentials, the written request parsed strictly (TPKT length, LI, RDP_NEG_REQ flags / length / mask). Section ntlm-tokens: NEGOTIATE / AUTHENTICATE tokens against CHALLENGE messages whose MaxLen fields exceed Len. Non-trivial = a non-ASCII or over-long (> 15 UTF-16 units) string, or an identifier >= 0x80; distinct by hash of the case.";
 
 pub fn run(c: &Case) -> Outcome {
     let mut out = run_connection(c, true);
@@ -88,6 +88,29 @@ pub fn check(rep: &Report) {
         }
     }
     rep.list("connection-request", crs, run_cr);
+    // every length 0..=256 of each credential string and 0..=40 of the client name (the Client Info PDU and CS_CORE
+    // cross their length-encoding boundaries), ASCII and two-unit characters
+    let mut lens = Vec::new();
+    for n in 0..=256usize {
+        for field in 0..3 {
+            for wide in [false, true] {
+                let mut cfg = crate::mem::ClientCfg::simple();
+                let v: String = if wide { "\u{1F511}".repeat(n / 2) + &"x".repeat(n % 2) } else { "x".repeat(n) };
+                match field {
+                    0 => cfg.domain = v,
+                    1 => cfg.user = v,
+                    _ => cfg.password = v,
+                }
+                lens.push(Case { cfg, profile: refimpl::server::ServerProfile::simple(1004 + (n % 3) as u16, 0x000103EA), chunk: 0, stop_after: 0, warmup: false });
+            }
+        }
+        if n <= 40 {
+            let mut cfg = crate::mem::ClientCfg::simple();
+            cfg.name = "n".repeat(n);
+            lens.push(Case { cfg, profile: refimpl::server::ServerProfile::simple(1004, 0x000103EA), chunk: 0, stop_after: 0, warmup: false });
+        }
+    }
+    rep.list("string-lengths", lens, run);
     // NTLM tokens: the strict MS-NLMP layout rules of the C15 verifier (offset/length pairs, MIC position, field encodings)
     rep.random("ntlm-tokens", rep.tier.n(20_000, 1_000_000), 200, crate::props::c15::decode, crate::props::c15::run);
     rep.require("connections", "non-ascii-name", 1000);
